@@ -243,6 +243,13 @@ Theorem tucker_class_fit_frame : forall N sweeps modes (self X : ref) (h0 : heap
   nth_error (snd (exec (sk_estimator_fit 2 (sk_tucker_gen N sweeps modes) 25) (env0 [self; X], h0))) o = nth_error h0 o.
 Proof. intros. apply estimator_fit_frame; auto. apply tucker_gen_safe. Qed.
 
+(* every other estimator kind (RandomizedCP, ConstrainedCP, Parafac2, Tucker_NN(_HALS), the TT / TR classes, the regressors, CP_PLSR):
+   the receiver skeleton with an opaque allocating body - the body's own safety is the business of its function's skeleton *)
+Theorem any_estimator_fit_frame : forall nattr (self X : ref) (h0 : heap) (o : nat),
+  o < length h0 -> target self <> Some o ->
+  nth_error (snd (exec (sk_estimator_fit nattr (Alloc 25 1) 25) (env0 [self; X], h0))) o = nth_error h0 o.
+Proof. intros. apply estimator_fit_frame; auto. Qed.
+
 (* an estimator object [init; fixed_modes; mask; decomposition_] over the demo heap, and the tensor *)
 Definition est_heap : heap := demo_heap ++ [ OCell [RObj 6 []; RObj 7 []; RObj 8 [0; 1; 2; 3]; RNull] ].
 Lemma estimator_fit_nonvacuous :
@@ -296,17 +303,22 @@ Lemma interrupt_nonvacuous :
   steps sk_hals_nnls = 10.
 Proof. vm_compute. split; reflexivity. Qed.
 
-(* ------------------------------------------------------------------ genuine defect (round 5): CPTensor.normalize(inplace=False)
-   is documented to return a normalised copy and leave the tensor alone; the code as it is ignores the option and
-   always assigns self.weights / self.factors (skeleton sk_cp_normalize_method).  With the receiver PROTECTED the
-   skeleton is rejected and does change the receiver; what still holds is cp_normalize_method_frame (nothing but the
-   receiver object changes); the candidate repair returns CPTensor(cp_normalize(self)), i.e. sk_cp_normalize: accepted. *)
-Lemma cp_normalize_inplace_false_refuted :
-  safe 1 sk_cp_normalize_method = false /\
-  exists (self : ref) (h0 : heap) (o : nat), o < length h0 /\
-    nth_error (snd (exec sk_cp_normalize_method (env0 [self], h0))) o <> nth_error h0 o.
-Proof.
-  split; [vm_compute; reflexivity|]. exists (RObj 0 []), method_heap, 0. split; [vm_compute; lia|]. vm_compute. discriminate.
-Qed.
-Lemma cp_normalize_repaired_safe : safe 1 sk_cp_normalize = true.
+(* ------------------------------------------------------------------ CPTensor.normalize(inplace=...) after fix 9ada0b3 (the defect
+   found in round 5: the option was ignored).  inplace=False returns a new CPTensor: every argument protected, framed also
+   when interrupted.  inplace=True is the mutator cp_normalize_method_frame (only the receiver object changes).
+   before_9ada0b3: the old code ran the mutator whatever the option said - with the receiver protected that skeleton is
+   rejected and does change the receiver. *)
+Lemma cp_normalize_method_copy_safe : safe 1 sk_cp_normalize_method_copy = true.
 Proof. vm_compute. reflexivity. Qed.
+Lemma cp_normalize_method_copy_frame : forall (self : ref) (h0 : heap) (n o : nat), o < length h0 ->
+  nth_error (snd (fst (run sk_cp_normalize_method_copy n (env0 [self], h0)))) o = nth_error h0 o.
+Proof. intros. apply (frame_raise sk_cp_normalize_method_copy [self] h0 cp_normalize_method_copy_safe); auto. Qed.
+Lemma cp_normalize_inplace_false_before_9ada0b3 :
+  safe 1 sk_cp_normalize_method = false /\
+  (exists (self : ref) (h0 : heap) (o : nat), o < length h0 /\
+    nth_error (snd (exec sk_cp_normalize_method (env0 [self], h0))) o <> nth_error h0 o) /\
+  footprint sk_cp_normalize_method_copy [RObj 0 []] method_heap = [].
+Proof.
+  split; [vm_compute; reflexivity|]. split; [|vm_compute; reflexivity].
+  exists (RObj 0 []), method_heap, 0. split; [vm_compute; lia|]. vm_compute. discriminate.
+Qed.
